@@ -282,11 +282,42 @@ nb!(nb_step_idle, 0);
 //@bounds state SendingData (join or data frame, arbitrary windows) x every event kind x radio TxDone or error
 //@assumes as nb_step_idle; while sending the radio answers a PHY event with TxDone or an error (anything else is outside its contract: the front-end panics)
 nb!(nb_step_sending, 1);
-//@h id=nb_step_rxwindow props=C06,C04,C10 tier=quick build=dev-eu868 cost=40 timeout=900
+//@h id=nb_step_rxwindow props=C06,C04,C10,C05 tier=quick build=dev-eu868 cost=40 timeout=900
 //@bounds state WaitingForRxWindow (RX1 or RX2 pending at any time < 2^31) x every event kind x radio answers/errors
 //@assumes as nb_step_idle
 nb!(nb_step_rxwindow, 2);
-//@h id=nb_step_rx props=C06,C04,C07,C10 tier=quick build=dev-eu868 cost=60 timeout=900
+//@h id=nb_step_rx props=C06,C04,C07,C10,C05 tier=quick build=dev-eu868 cost=60 timeout=900
 //@bounds state WaitingForRx (RX1 or RX2 open) x every event kind x radio RxDone/Rxing/Idle/error x MAC accepting, rejecting or expiring
 //@assumes as nb_step_idle
 nb!(nb_step_rx, 3);
+
+//@h id=nb_set_adr props=C12 tier=quick build=dev-eu868 cost=20 timeout=900
+//@bounds nb_device::Device::{set_adr, get_adr, set_session, get_session, get_fcnt_up} with and without a session (arbitrary session): disabling ADR restarts the ADR acknowledgement count and changes nothing else, enabling it changes only the flag; a session handed to the device is handed back unchanged
+//@encodes nb_device::Device::{set_adr, get_adr, set_session, get_session, get_fcnt_up, ready_to_send_data}
+#[kani::proof]
+#[kani::unwind(20)]
+fn nb_set_adr() {
+    use crate::mac::verif_kani_lorawan_device_mac_common::{any_session_pub as any_session, session_same_pub as session_same};
+    crate::mac::verif_kani_lorawan_device_mac_common::vinit();
+    let mut dev: crate::nb_device::Device<NbRadio, NoRng, 64, 1> =
+        crate::nb_device::Device::new(region::Configuration::new(region::Region::EU868), NbRadio { buf: [0; 8], phase: 0 }, NoRng);
+    let with_session: bool = kani::any();
+    let s = any_session(&[0x08]);
+    let mut want = s.clone();
+    if with_session {
+        dev.set_session(s);
+        crate::vcheck!(dev.ready_to_send_data(), "C20: a device restored from a session can send");
+        crate::vcheck!(dev.get_fcnt_up() == Some(want.fcnt_up), "C20/C06: a restored device continues with the stored uplink counter");
+    }
+    let en: bool = kani::any();
+    dev.set_adr(en);
+    crate::vcheck!(dev.get_adr() == en, "C12: ADR is enabled exactly when the application enabled it");
+    if !en {
+        want.adr_ack_cnt = 0;
+    }
+    match dev.get_session() {
+        Some(got) => crate::vcheck!(with_session && session_same(got, &want), "C12: disabling ADR restarts the ADR acknowledgement count; nothing else in the session changes"),
+        None => crate::vcheck!(!with_session, "C20: the session handed to the device is kept"),
+    }
+    kani::cover!(with_session && !en, "ADR disabled on a restored device");
+}
